@@ -56,8 +56,9 @@ func LimitTagSets(a []*TagSet, slimit, soffset int) []*TagSet {
 		return nil
 	}
 
-	// Clamp limit to the max number of tag sets.
-	if soffset+slimit > len(a) {
+	// Clamp limit to the max number of tag sets. A zero limit means that
+	// there is no limit (SOFFSET without SLIMIT).
+	if slimit == 0 || soffset+slimit > len(a) {
 		slimit = len(a) - soffset
 	}
 	return a[soffset : soffset+slimit]
